@@ -32,7 +32,9 @@ OWNED = {
 }
 # methods that may write the object's own state (documented): everything else must leave `self` alone
 STATE_WRITERS = {
-    "Integrator": {"__init__", "_integrate", "integrate", "set_pva"},
+    # predict runs the kernel on the scratch rows beyond the stored trajectory (through _integrate): physically a write of own
+    # buffers, observably none -- C02.*.predict.frame proves trajectory, index and rows < n are the same objects afterwards
+    "Integrator": {"__init__", "_integrate", "integrate", "set_pva", "predict"},
     "EstimationModel": {"__init__", "reset_estimates", "update_estimates"},
     "Parameters": {"__init__", "apply"},
     "Turntable": {"__init__", "rotate", "rest"},
@@ -94,7 +96,8 @@ def _frames(ctx, py):
         for f in funcs:
             ss = by_func.get(f, [])
             n_sites += len(ss)
-            bad = [s for s in ss if not s.ok()]
+            # a private helper's writes to its own parameters / to self are judged where it is called (frame.analyze_module)
+            bad = [s for s in ss if not s.ok() and not s.deferred]
             outs = OUT_PARAMS.get((m, f))
             if outs:
                 bad = [s for s in bad if not (s.origin == frame.ALIAS and s.target in outs)]
@@ -102,7 +105,7 @@ def _frames(ctx, py):
             if "." in f:
                 cls, meth = f.split(".")
                 allowed = STATE_WRITERS.get(cls, set())
-                if allowed is not None and meth not in allowed:
+                if allowed is not None and meth not in allowed and not frame.is_private(f):
                     bad += [s for s in ss if s.origin == frame.OWN and s.kind.startswith(("attribute-store", "item-store", "augmented", "method:"))]
             ctx.ob("C19.frame.%s.%s" % (m, f), "f", not bad, "ast-freshness", (time.time() - t0) / max(1, len(funcs)),
                    "%d in-place mutation site(s), every target fresh or the object's documented own state" % len(ss) if not bad
@@ -146,13 +149,29 @@ def _determinism(ctx, py):
                 names = [a.name for a in n.names]
                 if any(x in ("random", "time", "datetime", "secrets", "uuid") for x in names) or getattr(n, "module", None) in ("random", "time", "datetime"):
                     bad.append("line %d: import of %s" % (n.lineno, names))
-        # every rng parameter goes through check_random_state before use
+        # every rng parameter is normalised (rebinding through check_random_state) before anything is drawn from it; handing
+        # it on untouched to another callable that takes an rng is fine (that callable is checked in its own right)
         for fn in [x for x in ast.walk(tree) if isinstance(x, ast.FunctionDef)]:
-            params = [a.arg for a in fn.args.args]
-            if "rng" in params:
-                txt = ast.unparse(fn)
-                if "check_random_state(rng)" not in txt:
-                    bad.append("%s: rng parameter not normalised by check_random_state" % fn.name)
+            params = [a.arg for a in fn.args.args + fn.args.kwonlyargs]
+            if "rng" not in params:
+                continue
+            events = []
+            for n in ast.walk(fn):
+                if isinstance(n, ast.Assign) and any(isinstance(t, ast.Name) and t.id == "rng" for t in n.targets):
+                    ok_norm = (isinstance(n.value, ast.Call) and ast.unparse(n.value.func).split(".")[-1] == "check_random_state"
+                               and len(n.value.args) == 1 and ast.unparse(n.value.args[0]) == "rng")
+                    events.append((n.lineno, n.col_offset, "norm" if ok_norm else "rebind"))
+                elif isinstance(n, ast.Attribute) and isinstance(n.value, ast.Name) and n.value.id == "rng":
+                    events.append((n.lineno, n.col_offset, "use:" + n.attr))
+            events.sort()
+            normalised = False
+            for ln, _, ev in events:
+                if ev == "norm":
+                    normalised = True
+                elif ev == "rebind":
+                    bad.append("%s line %d: rng rebound to something that is not check_random_state(rng)" % (fn.name, ln))
+                elif not normalised:
+                    bad.append("%s line %d: rng.%s used before rng = check_random_state(rng)" % (fn.name, ln, ev[4:]))
         ctx.ob("C19.det.%s" % m, "f", not bad, "ast-scan", 0.0,
                "no global-RNG / clock / environment read, no set iteration; draws only from rng / self.rng obtained via check_random_state" if not bad else "; ".join(bad[:4]),
                cex=None if not bad else dict(module=m, findings=bad[:6]))
